@@ -920,16 +920,25 @@ func TestCheck(t *testing.T) {
 		if dup {
 			return
 		}
-		// deterministic?
+		// reproducible? (a failure that depends on Go's map iteration order need not show on every run: it is
+		// accepted when it shows again within four more runs)
 		var again []string
-		if tk.kind == "history" {
-			again, _ = w.runHistory(tk.hist)
-		} else if tk.kind == "miner" {
-			again, _ = w.runMiner(tk.node)
-		} else {
-			again, _ = w.runCorruption(tk.cacheN, tk.node, corruptions()[tk.corr], tk.batch)
+		for try := 0; try < 4 && len(again) == 0; try++ {
+			if tk.kind == "history" {
+				again, _ = w.runHistory(tk.hist)
+			} else if tk.kind == "miner" {
+				again, _ = w.runMiner(tk.node)
+			} else {
+				again, _ = w.runCorruption(tk.cacheN, tk.node, corruptions()[tk.corr], tk.batch)
+			}
 		}
-		if len(again) == 0 {
+		// An announced log list that differs from the receipts is evidence in itself (the observed list is in
+		// the message); when it does not show again the import result depends on something other than the
+		// block and its parent state (Go's map iteration order, typically), which is what C01 excludes.
+		if len(again) == 0 && strings.Contains(fails[0], "logs announced for block") {
+			fails = append(fails, "the same history did not fail in four further runs: the announced order is not a function of the input")
+			detail["fails"] = fails
+		} else if len(again) == 0 {
 			ev.Broken("C01 verdict flipped on re-run: %v", fails)
 		}
 		run.Violate(ev.Violation{Scenario: scen, Oracle: oracle, CaseID: caseID, Detail: detail})
